@@ -82,7 +82,10 @@ type group struct {
 	Cfg     int // index into cfgPool
 	Members []scenario
 	Order   []int // order in which the held token requests are let through
-	Note    string
+	// Sequential: the logins run one after the other (the IdP is re-scripted before each, so a later
+	// login may reuse an earlier code or access token with a different answer) instead of at once
+	Sequential bool
+	Note       string
 }
 
 var laterStatus = map[int]int{1: 500, 2: 500, 3: 403, 4: 403, 5: 403}
@@ -166,18 +169,23 @@ type fakeIdP struct {
 	tokHit     map[string]bool
 	uiHit      map[string]bool
 	unexpected []string
+	epoch      int                   // which login of a sequential group the script belongs to (0 otherwise); part of the hit keys
 	refs       map[string]answerSpec // answers served under /_ref/<id> for the reference fetch
 	srv        *httptest.Server
 }
 
 func normToken(t string) string { return strings.TrimSpace(t) } // net/http trims header values on the wire
 
-func (f *fakeIdP) set(tokBy, uiBy map[string]answerSpec) {
+func (f *fakeIdP) set(tokBy, uiBy map[string]answerSpec, epoch int, resetHits bool) {
 	f.mu.Lock()
-	f.tokBy, f.uiBy = tokBy, uiBy
-	f.tokHit, f.uiHit, f.unexpected = map[string]bool{}, map[string]bool{}, nil
+	f.tokBy, f.uiBy, f.epoch = tokBy, uiBy, epoch
+	if resetHits {
+		f.tokHit, f.uiHit, f.unexpected = map[string]bool{}, map[string]bool{}, nil
+	}
 	f.mu.Unlock()
 }
+
+func hitKey(epoch int, k string) string { return fmt.Sprintf("%d|%s", epoch, k) }
 
 func (f *fakeIdP) snapshot() (map[string]bool, map[string]bool, []string) {
 	f.mu.Lock()
@@ -196,7 +204,7 @@ func (f *fakeIdP) serve(rw http.ResponseWriter, req *http.Request) {
 		code := req.PostForm.Get("code")
 		a, ok = f.tokBy[code]
 		if ok {
-			f.tokHit[code] = true
+			f.tokHit[hitKey(f.epoch, code)] = true
 		} else {
 			f.unexpected = append(f.unexpected, "token endpoint: unknown code "+fmt.Sprintf("%q", code))
 			a = answerSpec{Status: 400, Raw: []byte(`{"error":"invalid_grant"}`)}
@@ -206,7 +214,7 @@ func (f *fakeIdP) serve(rw http.ResponseWriter, req *http.Request) {
 		bearer := normToken(strings.TrimPrefix(req.Header.Get("Authorization"), "Bearer "))
 		a, ok = f.uiBy[bearer]
 		if ok {
-			f.uiHit[bearer] = true
+			f.uiHit[hitKey(f.epoch, bearer)] = true
 		} else {
 			f.unexpected = append(f.unexpected, "userinfo endpoint: unknown bearer "+fmt.Sprintf("%q", bearer))
 			a = answerSpec{Status: 401, Raw: []byte(`{"error":"invalid_token"}`)}
@@ -347,12 +355,7 @@ func (g *gate) RoundTrip(req *http.Request) (*http.Response, error) {
 	return g.inner.RoundTrip(req)
 }
 
-const watchdog = 200 * time.Second
-
-func stuck(what string) {
-	fmt.Fprintln(os.Stderr, "harness: concurrent-login choreography stuck while", what)
-	os.Exit(3)
-}
+const watchdog = 120 * time.Second
 
 // overlap runs action(0..k-1) so that the logins genuinely overlap, in a fixed order without sleeps:
 //  1. login i is started and runs until its first IdP request (token endpoint) is held at the gate
@@ -360,22 +363,45 @@ func stuck(what string) {
 //  2. in the given order, login i's token request is let through; it runs until its next IdP request
 //     (userinfo) is held at the gate, or until it returns.
 //  3. all held userinfo requests are let through; everything from here on passes unhindered.
-func (g *gate) overlap(k int, order []int, action func(i int)) {
+//
+// With sequential = true the logins simply run one after the other against the same provider
+// object (before(i) re-scripts the IdP for login i): state the code under test carries from one
+// login to the next (caches, pools, memo tables) is what such a group is after.
+// The result says which logins did not come back within the watchdog: that is something the code
+// under test did (a hang), so it becomes an observation, not a harness error.
+func (g *gate) overlap(k int, order []int, sequential bool, before func(i int), action func(i int)) []bool {
+	hung := make([]bool, k)
 	done := make([]chan struct{}, k)
+	start := func(i int) {
+		done[i] = make(chan struct{})
+		go func() {
+			defer close(done[i])
+			action(i)
+		}()
+	}
+	if sequential {
+		g.setHolding(false)
+		for i := 0; i < k; i++ {
+			before(i)
+			start(i)
+			select {
+			case <-done[i]:
+			case <-time.After(watchdog):
+				hung[i] = true
+			}
+		}
+		return hung
+	}
 	first := make([]*heldReq, k)
 	g.setHolding(true)
 	for i := 0; i < k; i++ {
-		done[i] = make(chan struct{})
-		go func(i int) {
-			defer close(done[i])
-			action(i)
-		}(i)
+		start(i)
 		select {
 		case h := <-g.arrivals:
 			first[i] = h
 		case <-done[i]:
 		case <-time.After(watchdog):
-			stuck("starting a login")
+			hung[i] = true
 		}
 	}
 	var second []*heldReq
@@ -389,20 +415,33 @@ func (g *gate) overlap(k int, order []int, action func(i int)) {
 			second = append(second, h)
 		case <-done[i]:
 		case <-time.After(watchdog):
-			stuck("waiting for a login's second request")
+			hung[i] = true
 		}
 	}
 	g.setHolding(false)
 	for _, h := range second {
 		close(h.release)
 	}
+	// anything that arrived unexpectedly while the gate was closed is let go as well
+	for drained := false; !drained; {
+		select {
+		case h := <-g.arrivals:
+			close(h.release)
+		default:
+			drained = true
+		}
+	}
 	for i := 0; i < k; i++ {
+		if hung[i] {
+			continue
+		}
 		select {
 		case <-done[i]:
 		case <-time.After(watchdog):
-			stuck("waiting for a login to finish")
+			hung[i] = true
 		}
 	}
+	return hung
 }
 
 // ---------------------------------------------------------------------------------------------
@@ -424,7 +463,7 @@ const sessionKeyB64 = "CrYro5Kp6CO2aBbVGoHgnh2/YQaz9cqqRYNbtTSUBDs="
 const redirectURI = "http://sso-auth.example.test/callback"
 const authHost = "sso-auth.example.test"
 
-func newWorld() *world {
+func newWorld() (*world, error) {
 	w := &world{idp: &fakeIdP{}}
 	w.idp.srv = httptest.NewUnstartedServer(http.HandlerFunc(w.idp.serve))
 	w.idp.srv.Config.ErrorLog = log.New(io.Discard, "", 0)
@@ -437,35 +476,40 @@ func newWorld() *world {
 		return w.gate
 	})
 
-	// the production entry point: a Configuration with all provider configurations of the pool,
-	// NewAuthenticatorMux -> newProvider -> the provider constructors, wrapped as in production
-	cfg := auth.Configuration{
-		ProviderConfigs: map[string]auth.ProviderConfig{},
-		ServerConfig:    auth.ServerConfig{Host: authHost, Port: 4180, Scheme: "http"},
-		SessionConfig: auth.SessionConfig{
-			SessionLifetimeTTL: 720 * time.Hour,
-			Key:                sessionKeyB64,
-			CookieConfig:       auth.CookieConfig{Name: "_sso_auth", Secret: cookieSecretB64, Expire: 168 * time.Hour, Secure: true, HTTPOnly: true},
-		},
-		MetricsConfig: auth.MetricsConfig{StatsdConfig: auth.StatsdConfig{Host: "localhost", Port: 8125}}, // validated only; no client is created
-		ClientConfigs: map[string]auth.ClientConfig{"proxy": {ID: "proxy-client-id", Secret: "proxy-client-secret"}},
-		AuthorizeConfig: auth.AuthorizeConfig{
-			EmailConfig: auth.EmailConfig{Domains: []string{"*"}},
-			ProxyConfig: auth.ProxyConfig{Domains: []string{"example.com"}},
-		},
+	// the production entry path of cmd/sso-auth/main.go: environment -> auth.LoadConfig -> Validate ->
+	// NewStatsdClient -> NewAuthenticatorMux (-> newProvider -> the provider constructors, wrapped as
+	// in production). A failure on this path is the doing of the code under test, not of the harness:
+	// it is reported as an observation (startFailure), never as a harness error.
+	for k, v := range buildEnv() {
+		c.Must(os.Setenv(k, v))
 	}
-	for _, p := range cfgPool {
-		cfg.ProviderConfigs[p.PC.ProviderSlug] = p.PC
+	cfg, err := auth.LoadConfig()
+	if err != nil {
+		return nil, fmt.Errorf("auth.LoadConfig: %v", err)
 	}
-	c.Must(cfg.Validate())
-	mux, err := auth.NewAuthenticatorMux(cfg, nil)
-	c.Must(err)
+	if err := cfg.Validate(); err != nil {
+		return nil, fmt.Errorf("Configuration.Validate: %v", err)
+	}
+	statsdClient, err := auth.NewStatsdClient(cfg.MetricsConfig.StatsdConfig.Host, cfg.MetricsConfig.StatsdConfig.Port)
+	if err != nil {
+		return nil, fmt.Errorf("auth.NewStatsdClient: %v", err)
+	}
+	mux, err := auth.NewAuthenticatorMux(cfg, statsdClient)
+	if err != nil {
+		return nil, fmt.Errorf("auth.NewAuthenticatorMux: %v", err)
+	}
 	w.provs = mux.VerifProviders()
-	for _, p := range cfgPool {
+	bySlug := map[string]auth.ProviderConfig{}
+	for _, pc := range cfg.ProviderConfigs {
+		bySlug[pc.ProviderSlug] = pc
+	}
+	for i, p := range cfgPool {
 		pr, ok := w.provs[p.PC.ProviderSlug]
-		if !ok {
-			c.Must(fmt.Errorf("no provider object for slug %s", p.PC.ProviderSlug))
+		pc, ok2 := bySlug[p.PC.ProviderSlug]
+		if !ok || !ok2 {
+			return nil, fmt.Errorf("the configured provider %q did not come out of LoadConfig / NewAuthenticatorMux", p.PC.ProviderSlug)
 		}
+		cfgPool[i].PC = pc // what the real loader made of the environment is what the cases describe
 		// the constructors set the production endpoints; scheme and host of the exported URL fields
 		// are pointed at the fake IdP, the paths the constructors computed are kept
 		d := pr.Data()
@@ -479,7 +523,7 @@ func newWorld() *world {
 	c.Must(err)
 
 	// cmd/sso-auth/main.go:48 puts the whole mux behind http.TimeoutHandler
-	w.authSrv = httptest.NewUnstartedServer(http.TimeoutHandler(mux, 280*time.Second, ""))
+	w.authSrv = httptest.NewUnstartedServer(http.TimeoutHandler(mux, cfg.ServerConfig.TimeoutConfig.Request, ""))
 	w.authSrv.Config.ErrorLog = log.New(io.Discard, "", 0) // "http: panic serving ..." lines
 	w.authSrv.Start()
 	w.refClient = &http.Client{Timeout: 300 * time.Second, Transport: &http.Transport{DisableKeepAlives: true, Proxy: nil}}
@@ -489,7 +533,48 @@ func newWorld() *world {
 		Transport:     &http.Transport{MaxIdleConnsPerHost: 8, Proxy: nil},
 		CheckRedirect: func(*http.Request, []*http.Request) error { return http.ErrUseLastResponse },
 	}
-	return w
+	return w, nil
+}
+
+// buildEnv renders the configuration pool as the environment variables sso-auth reads
+func buildEnv() map[string]string {
+	env := map[string]string{
+		"SERVER_HOST": authHost, "SERVER_SCHEME": "http", "SERVER_PORT": "4180", "SERVER_TIMEOUT_REQUEST": "280s",
+		"SESSION_KEY": sessionKeyB64, "SESSION_COOKIE_SECRET": cookieSecretB64, "SESSION_COOKIE_NAME": "_sso_auth", "SESSION_LIFETIME": "720h",
+		"CLIENT_PROXY_ID": "proxy-client-id", "CLIENT_PROXY_SECRET": "proxy-client-secret",
+		"AUTHORIZE_EMAIL_DOMAINS": "*", "AUTHORIZE_PROXY_DOMAINS": "example.com",
+		"METRICS_STATSD_HOST": "127.0.0.1", "METRICS_STATSD_PORT": "8125", "LOGGING_ENABLE": "false",
+	}
+	set := func(k, v string) {
+		if v != "" {
+			env[k] = v
+		}
+	}
+	for i, p := range cfgPool {
+		pre := fmt.Sprintf("PROVIDER_P%d_", i)
+		pc := p.PC
+		set(pre+"TYPE", pc.ProviderType)
+		set(pre+"SLUG", pc.ProviderSlug)
+		set(pre+"CLIENT_ID", pc.ClientConfig.ID)
+		set(pre+"CLIENT_SECRET", pc.ClientConfig.Secret)
+		set(pre+"SCOPE", pc.Scope)
+		set(pre+"GOOGLE_PROMPT", pc.GoogleProviderConfig.ApprovalPrompt)
+		set(pre+"GOOGLE_DOMAIN", pc.GoogleProviderConfig.HostedDomain)
+		set(pre+"OKTA_URL", pc.OktaProviderConfig.OrgURL)
+		set(pre+"OKTA_SERVER", pc.OktaProviderConfig.ServerID)
+		set(pre+"COGNITO_URL", pc.AmazonCognitoProviderConfig.OrgURL)
+		set(pre+"COGNITO_ID", pc.AmazonCognitoProviderConfig.UserPoolID)
+		set(pre+"COGNITO_REGION", pc.AmazonCognitoProviderConfig.Region)
+		set(pre+"COGNITO_CREDENTIALS_ID", pc.AmazonCognitoProviderConfig.Credentials.ID)
+		set(pre+"COGNITO_CREDENTIALS_SECRET", pc.AmazonCognitoProviderConfig.Credentials.Secret)
+		if d := pc.GroupCacheConfig.CacheIntervalConfig.Provider; d != 0 {
+			set(pre+"GROUPCACHE_INTERVAL_PROVIDER", d.String())
+		}
+		if d := pc.GroupCacheConfig.CacheIntervalConfig.Refresh; d != 0 {
+			set(pre+"GROUPCACHE_INTERVAL_REFRESH", d.String())
+		}
+	}
+	return env
 }
 
 // reference fetches an answer with a STOCK Go client (default http.Transport, i.e. transparent
@@ -578,6 +663,8 @@ func (o redeemObs) coq() string {
 		return fmt.Sprintf("(OSession %s %s %s)", S(o.Email), S(o.Access), S(o.Refresh))
 	case "error":
 		return fmt.Sprintf("(OError %d)", o.ErrKind)
+	case "hang":
+		return "(OError 0)" // no error kind of the model: reported as a mismatch
 	}
 	return "OPanic"
 }
@@ -683,6 +770,9 @@ func tokenKey(sc scenario) string {
 // wellFormed: the logins of a group must be told apart by the IdP (distinct non-empty codes,
 // distinct access tokens); the generator re-draws a group that is not.
 func wellFormed(g group) bool {
+	if g.Sequential {
+		return true
+	}
 	codes, toks := map[string]bool{}, map[string]bool{}
 	for _, m := range g.Members {
 		if m.Code != "" {
@@ -722,27 +812,70 @@ func (w *world) run(g group) []c.Case {
 			w.prepare(&g.Members[i])
 		}
 	}
-	tokBy, uiBy := map[string]answerSpec{}, map[string]answerSpec{}
 	keys := make([]string, k)
 	for i, m := range g.Members {
-		if m.Code != "" {
-			tokBy[m.Code] = m.Tok
-		}
 		keys[i] = tokenKey(m)
-		if keys[i] != "" {
-			uiBy[keys[i]] = m.UI
+	}
+	// the IdP's script: all logins of a concurrent group at once; login i alone before login i of a
+	// sequential group (so a later login may present an earlier code or token and get another answer)
+	script := func(only int) (map[string]answerSpec, map[string]answerSpec) {
+		tokBy, uiBy := map[string]answerSpec{}, map[string]answerSpec{}
+		for i, m := range g.Members {
+			if only >= 0 && i != only {
+				continue
+			}
+			if m.Code != "" {
+				tokBy[m.Code] = m.Tok
+			}
+			if keys[i] != "" {
+				uiBy[keys[i]] = m.UI
+			}
+		}
+		return tokBy, uiBy
+	}
+	epochOf := func(i int) int {
+		if g.Sequential {
+			return i + 1
+		}
+		return 0
+	}
+	before := func(i int) {
+		t, u := script(i)
+		w.idp.set(t, u, i+1, false)
+	}
+	all := func() {
+		t, u := script(-1)
+		w.idp.set(t, u, 0, true)
+		if g.Sequential {
+			w.idp.set(nil, nil, 0, true)
 		}
 	}
 
 	// (a) provider.Redeem, directly
-	w.idp.set(tokBy, uiBy)
+	all()
 	ros := make([]redeemObs, k)
-	w.gate.overlap(k, order, func(i int) { ros[i] = directRedeem(p, g.Members[i].Code) })
+	tmp := make([]redeemObs, k)
+	hung := w.gate.overlap(k, order, g.Sequential, before, func(i int) { tmp[i] = directRedeem(p, g.Members[i].Code) })
+	for i := range ros {
+		if hung[i] {
+			ros[i] = redeemObs{Kind: "hang", Detail: "Redeem did not return within the watchdog"}
+		} else {
+			ros[i] = tmp[i]
+		}
+	}
 	tokHit, uiHit, unexpected := w.idp.snapshot()
 	// (b) the same answers, through the authenticator's /callback
-	w.idp.set(tokBy, uiBy)
+	all()
 	cos := make([]cbObs, k)
-	w.gate.overlap(k, order, func(i int) { cos[i] = w.callback(slug, g.Members[i]) })
+	tmp2 := make([]cbObs, k)
+	hung = w.gate.overlap(k, order, g.Sequential, before, func(i int) { tmp2[i] = w.callback(slug, g.Members[i]) })
+	for i := range cos {
+		if hung[i] {
+			cos[i] = cbObs{Status: 0, Detail: "no answer within the watchdog"}
+		} else {
+			cos[i] = tmp2[i]
+		}
+	}
 	_, _, unexpected2 := w.idp.snapshot()
 	sort.Strings(unexpected)
 	sort.Strings(unexpected2)
@@ -772,23 +905,40 @@ func (w *world) run(g group) []c.Case {
 		if len(sc.Tok.Headers) > 0 || len(sc.UI.Headers) > 0 || sc.Tok.Wire != 0 || sc.UI.Wire != 0 {
 			tag += 1000 // response headers / framing varied
 		}
+		if g.Sequential {
+			tag += 500
+		}
 		coq := fmt.Sprintf("Case %d %s %s %s %s %s %s %s %s (Some (%s, %s, %s))",
 			tag, provCoq[cfg.Type], S(sc.Code), answerCoq(sc.TokEff, tc.coq()), answerCoq(sc.UIEff, uc.coq()), tab,
-			ros[i].coq(), c.Bool(tokHit[sc.Code]), c.Bool(keys[i] != "" && uiHit[keys[i]]), c.Bool(sc.ErrParam), later, cos[i].coq())
+			ros[i].coq(), c.Bool(tokHit[hitKey(epochOf(i), sc.Code)]), c.Bool(keys[i] != "" && uiHit[hitKey(epochOf(i), keys[i])]), c.Bool(sc.ErrParam), later, cos[i].coq())
 		js := map[string]interface{}{
 			"provider": cfg.Type, "config": cfg.describe(), "code": sc.Code, "note": sc.Note,
-			"group": map[string]interface{}{"size": k, "member": i, "release_order": order, "note": g.Note,
+			"group": map[string]interface{}{"size": k, "member": i, "sequential": g.Sequential, "release_order": order, "note": g.Note,
+				"earlier_logins_of_this_group":   earlier(g, i),
 				"unexpected_idp_requests_direct": unexpected, "unexpected_idp_requests_callback": unexpected2},
 			"token_answer":                   answerJSON(sc.Tok, sc.TokEff, tc),
 			"userinfo_answer":                answerJSON(sc.UI, sc.UIEff, uc),
 			"userinfo_held_for_access_token": keys[i],
 			"payload_oracle":                 tabJS,
-			"redeem":                         ros[i], "token_called": tokHit[sc.Code], "userinfo_called": keys[i] != "" && uiHit[keys[i]],
+			"redeem":                         ros[i], "token_called": tokHit[hitKey(epochOf(i), sc.Code)], "userinfo_called": keys[i] != "" && uiHit[hitKey(epochOf(i), keys[i])],
 			"callback": map[string]interface{}{"error_param": sc.ErrParam, "later_gate": sc.Later, "obs": cos[i]},
 		}
 		out = append(out, c.Case{Coq: coq, JSON: js})
 	}
 	return out
+}
+
+// earlier summarises the logins that ran before (sequential) or alongside (concurrent) login i
+func earlier(g group, i int) []map[string]interface{} {
+	var l []map[string]interface{}
+	for j, m := range g.Members {
+		if j == i || (g.Sequential && j > i) {
+			continue
+		}
+		l = append(l, map[string]interface{}{"member": j, "code": m.Code, "note": m.Note, "access_token": tokenKey(m),
+			"token_headers": m.Tok.Headers, "userinfo_status": m.UI.Status, "userinfo_headers": m.UI.Headers, "userinfo_body": fmt.Sprintf("%q", m.UI.Raw)})
+	}
+	return l
 }
 
 func answerJSON(a answerSpec, e effective, class interface{}) map[string]interface{} {
